@@ -508,6 +508,23 @@ def check_tangential(case, env=None):
     again = darsia.FVFullFaceReconstruction(g)(u)
     if not np.array_equal(again, full):
         raise Violation("tang-operator-state", "a kept reconstruction operator and a newly built one disagree", t)
+    # the caller re-uses its flux buffer: the same array object, overwritten in place, is a new argument
+    buf = np.random.default_rng([int(case["pseed"]), 77]).integers(-8, 9, size=ref.num_faces).astype(float) * sc
+    want_buf = _tang_ref(ref, buf)
+    for name, op in ((("full", recon), ("tangential", darsia.FVTangentialFaceReconstruction(g))) if dim >= 2
+                     else (("full", recon),)):
+        first = op(buf)
+        buf[...] = -2.0 * buf + sc
+        second = np.asarray(op(buf))
+        fresh = np.asarray((darsia.FVFullFaceReconstruction(g) if name == "full"
+                            else darsia.FVTangentialFaceReconstruction(g))(buf.copy()))
+        if second.shape != fresh.shape or not np.array_equal(second, fresh):
+            raise Violation("tang-stale-buffer", f"{name} reconstruction applied to a flux array that was overwritten "
+                            "in place since the previous application returns something else than a new operator on "
+                            "a copy of the array", t)
+        buf[...] = (buf - sc) / -2.0
+    if np.abs(np.asarray(recon(buf)) - want_buf).max() > 1e-13 * sc:
+        raise Violation("tang-stale-buffer", "full reconstruction of a re-used flux buffer differs from the reference", t)
     if 0 <= int(case.get("sc", 0)) <= 40:
         # integer-typed normal fluxes (tests/unit/test_fv.py feeds np.arange)
         gi = recon(u.astype(np.int64))
